@@ -122,6 +122,7 @@ pub fn run_case<V: VringT<GM> + Clone + Send + Sync + 'static>(case: &Value, tra
         trace.emit(json!({"ev": "stress", "threads": n, "iters": iters, "lost": lost, "setup": format!("{s1}/{s2}")}));
     }
     let mut listeners: Vec<std::sync::Arc<EventFd>> = Vec::new();
+    let mut listener_meta: Vec<(usize, u64)> = Vec::new();
     // C09, daemon part: (identity, number of copies the test itself keeps, what keeps the other side alive) of every descriptor sent for a ring slot
     let mut tokens: Vec<(String, usize, Vec<File>)> = Vec::new();
     let mut sentkinds: Vec<String> = Vec::new();
@@ -249,12 +250,19 @@ pub fn run_case<V: VringT<GM> + Clone + Send + Sync + 'static>(case: &Value, tra
                 let rid = step["rid"].as_u64().unwrap_or(0) as usize;
                 let (od, oa, ou) = (from_limbs(&step["odesc"]), from_limbs(&step["oavail"]), from_limbs(&step["oused"]));
                 let base = if rid < pool.len() { pool[rid].ua } else { 0 };
+                // the used / available ring may live in another region than the descriptor table ("rid_u", "rid_a")
+                let base_of = |key: &str| -> u64 {
+                    match step.get(key).and_then(|x| x.as_u64()) {
+                        Some(r) if (r as usize) < pool.len() => pool[r as usize].ua,
+                        _ => base,
+                    }
+                };
                 let mut body = Vec::new();
                 body.extend_from_slice(&(q as u32).to_le_bytes());
                 body.extend_from_slice(&0u32.to_le_bytes());
                 body.extend_from_slice(&base.wrapping_add(od).to_le_bytes());
-                body.extend_from_slice(&base.wrapping_add(ou).to_le_bytes());
-                body.extend_from_slice(&base.wrapping_add(oa).to_le_bytes());
+                body.extend_from_slice(&base_of("rid_u").wrapping_add(ou).to_le_bytes());
+                body.extend_from_slice(&base_of("rid_a").wrapping_add(oa).to_le_bytes());
                 body.extend_from_slice(&0u64.to_le_bytes());
                 // the used index currently in guest memory (chosen by the case) is written through the file
                 if let Some(ui) = step.get("used_idx").and_then(|x| x.as_u64()) {
@@ -437,8 +445,30 @@ pub fn run_case<V: VringT<GM> + Clone + Send + Sync + 'static>(case: &Value, tra
                 status = if r.is_ok() { "ok".into() } else { "err".into() };
                 if r.is_ok() {
                     rig.tb.listeners.lock().unwrap().push((t, id, e.clone()));
-                    let _ = e.write(1);
-                    listeners.push(e);
+                    // ("fire": false -- only register; the event is raised by a later `fire` letter)
+                    if step["fire"].as_bool().unwrap_or(true) {
+                        let _ = e.write(1);
+                    }
+                }
+                // (kept also when refused, so that the indexes of the `fire` / `unlisten` letters are those of the `listener` letters)
+                listeners.push(e);
+                listener_meta.push((t, id));
+            }
+            "unlisten" | "fire" => {
+                // act on the idx-th listener registered by this case: take it out of the worker's set / raise its event
+                let idx = step["idx"].as_u64().unwrap_or(0) as usize;
+                if idx < listeners.len() {
+                    let (t, id) = listener_meta[idx];
+                    if op == "unlisten" {
+                        let r = (rig.handlers_unreg)(t, listeners[idx].as_raw_fd(), id);
+                        status = if r.is_ok() { "ok".into() } else { "err".into() };
+                    } else {
+                        let _ = listeners[idx].write(1);
+                        status = "ok".into();
+                    }
+                    out = json!({"thread": t, "idl": limbs(id)});
+                } else {
+                    status = "noidx".into();
                 }
             }
             "fdslot" => {
